@@ -148,7 +148,13 @@ func runC11(c C11Case) string {
 	desc := func(out []byte) string {
 		return fmt.Sprintf("\nentry=%s ssts=%+v fixed-locals=%q\nvalues: %s\noutput: % x", c11Entries[c.Entry], c.SSTs, c.Locals, model.SeqString(c.Vals), clip(out, 400))
 	}
-	cat := refCatalog(c.SSTs)
+	// the reading side holds the shared tables as published (natural size); an
+	// Adjust-ed max_id reaches it only through the declared import
+	natural := append([]SharedJ{}, c.SSTs...)
+	for i := range natural {
+		natural[i].MaxID = -1
+	}
+	cat := refCatalog(natural)
 
 	var out []byte
 	want := c.Vals
@@ -310,7 +316,7 @@ func runC11(c C11Case) string {
 	if d := model.DiffSeq(a, b); d != "" {
 		return "reference decoder (with the catalog) recovers different values: " + d + desc(out)
 	}
-	got, gerr := drive.Observe(ion.NewReaderCat(bytes.NewReader(out), ionCatalog(c.SSTs)))
+	got, gerr := drive.Observe(ion.NewReaderCat(bytes.NewReader(out), ionCatalog(natural)))
 	if gerr != nil {
 		return fmt.Sprintf("ion-go's reader holding the same tables fails on the output: %v", gerr) + desc(out)
 	}
